@@ -40,3 +40,7 @@ claim('C10', 'Hypothesis-generated curves x operations (translation, rotation, u
       'About 12k (quick) / 300k (thorough) (curve, operation) pairs over all segment types and open/closed paths; matrices are products of rotations, scales, reflections (incl. about y=x), shears and translations with condition number <= 1e3; the image of an arc must be an arc tracing the mapped points at every sampled parameter; every joint that coincided exactly, the closing one included, must coincide exactly afterwards; non-uniform scaled() of arcs must raise.',
       'Trusts: point() (C03/C04); tolerance model in the evidence assumptions.',
       'DESIGN.md 2/C10')
+claim('C19', 'exhaustive exact grids per degree 0..8 (Fractions) + Hypothesis-generated Fraction/float control points; polynomials expanded exactly from prescribed root multisets; integer rational functions with prescribed common zeros',
+      'Decides the n-th order identities (bezier_point, bezier2polynomial, polynomial2bezier, split_bezier, halve_bezier) on complete finite grids for degrees 0..8; ~10k/300k polynomials with clusters, complex pairs, edge and out-of-range roots check that every simple well-conditioned root in the condition is returned exactly once and nothing outside it; rational_limit against exact cancellation of the common factor.',
+      'Trusts: vp/ref/bez_ref.py rational arithmetic; the stated conditioning filter for required roots.',
+      'DESIGN.md 2/C19')
